@@ -67,24 +67,39 @@ Theorem C14_reachable_good : forall s ls, good s -> good (fold_left step ls s).
 Proof. exact reachable_good. Qed.
 Print Assumptions C14_reachable_good.
 
-(* ---- maildir: kill after any k filesystem operations *)
-(* the file of a message that no executed operation unlinks exists, in some
-   folder, after a kill at any point: a MOVE (one atomic rename) never loses it *)
-Theorem move_prefix_conserved : forall lay m l k key,
-  Inv m -> legal_ops_b lay m l = true ->
+(* ---- maildir: kill after any k filesystem operations of any history *)
+(* the file of a message that no operation of the history unlinks exists, in
+   some folder, after a kill at any point: a MOVE (one atomic rename) never
+   loses it *)
+Theorem move_prefix_conserved : forall lay m sel h k key,
+  Inv m ->
   (exists f i c, file_at m f key i c) ->
-  (forall o, In o l -> forall s f i, o <> OUnlink (PMsg f s key i) \/ live s = false) ->
-  exists f i c, file_at (after_crash lay m l k) f key i c.
-Proof. exact move_file_conserved. Qed.
+  (forall o, In o (hist_ops lay m sel h) ->
+     forall s f i, o <> OUnlink (PMsg f s key i) \/ live s = false) ->
+  exists f i c, file_at (after_crash lay m (hist_ops lay m sel h) k) f key i c.
+Proof. exact hist_move_file_conserved. Qed.
 Print Assumptions move_prefix_conserved.
 
 (* ... and it is never in two folders at once *)
-Theorem move_prefix_exactly_one : forall lay m l k key f i c f' i' c',
-  Inv m -> legal_ops_b lay m l = true ->
-  file_at (after_crash lay m l k) f key i c -> file_at (after_crash lay m l k) f' key i' c' ->
+Theorem move_prefix_exactly_one : forall lay m sel h k key f i c f' i' c',
+  Inv m ->
+  file_at (after_crash lay m (hist_ops lay m sel h) k) f key i c ->
+  file_at (after_crash lay m (hist_ops lay m sel h) k) f' key i' c' ->
   f = f' /\ i = i' /\ c = c'.
-Proof. exact move_file_once. Qed.
+Proof. exact hist_move_file_once. Qed.
 Print Assumptions move_prefix_exactly_one.
+
+(* an acknowledged MOVE serves every moved message in the destination *)
+Theorem C14_move_acked : forall lay m f uids g tmps m',
+  Inv m -> f <> g -> NoDup uids ->
+  let o := run_cmd lay m (Some (f, false)) (CMove uids g tmps) in
+  o_ack o = AOk -> apply_ops lay m (o_ops o) = (m', true) ->
+  exists us ug, uidl_at m f us /\ uidl_at m g ug /\
+    (NoDup (map UidList.r_key (UidList.u_recs us)) ->
+     forall d, In d (move_delivers us (files_of m f) ug uids tmps) ->
+     let '(uid, k, i, c) := d in serves m' g (UidList.u_val ug) uid k (flags_of_info i) c).
+Proof. exact cmd_move_acked. Qed.
+Print Assumptions C14_move_acked.
 
 (* the served view of the MOVE example at every crash point: the message is
    served from exactly one of the two folders *)
@@ -94,13 +109,11 @@ Theorem C14_move_example_served_once :
 Proof. exact move_example_conserved. Qed.
 Print Assumptions C14_move_example_served_once.
 
-(* the maildir MULTIAPPEND loop, any number of messages, killed anywhere: its
-   operations are legal, so the invariant holds at every kill point and no
-   message served before is lost or changed *)
+(* the maildir MULTIAPPEND loop, any number of messages, killed anywhere: the
+   invariant holds at every kill point and no message served before is lost
+   or changed *)
 Theorem C14_append_crash_safe : forall lay f s msgs m u k,
-  live s = true -> Inv m ->
-  lookup m (PCtl f CUidl) = Some (File (Text (UidList.print_uidl u))) ->
-  UidList.wf_uidl u = true -> uids_ok u ->
+  live s = true -> Inv m -> uidl_at m f u ->
   (forall a, In a msgs -> key_unused m (a_key a) /\ wf_amsg a = true) ->
   NoDup (map a_key msgs) ->
   let mk := after_crash lay m (append_ops f s u msgs) k in
